@@ -25,11 +25,17 @@ type chunkReader struct {
 	size        func() int
 	eofWithData bool
 	reads       int
+	// zeroEvery > 0: the first call, and every zeroEvery-th after it, returns (0, nil) - which
+	// the io.Reader contract allows (and discourages); never twice in a row
+	zeroEvery int
 }
 
 func (c *chunkReader) Read(p []byte) (int, error) {
 	c.reads++
 	if len(p) == 0 {
+		return 0, nil
+	}
+	if c.zeroEvery > 0 && (c.reads-1)%c.zeroEvery == 0 && len(c.b) > 0 {
 		return 0, nil
 	}
 	if len(c.b) == 0 {
@@ -109,6 +115,10 @@ var readerKinds = []readerKind{
 	}},
 	{"random+data-with-EOF", func(b []byte, rng *rand.Rand) io.Reader {
 		return &chunkReader{b: b, size: func() int { return 1 + rng.Intn(64) }, eofWithData: true}
+	}},
+	// added after seeded change C13i (one field read with r.Read instead of io.ReadFull)
+	{"zero-length-reads", func(b []byte, rng *rand.Rand) io.Reader {
+		return &chunkReader{b: b, size: func() int { return 1 + rng.Intn(9) }, zeroEvery: 3}
 	}},
 }
 
